@@ -10,7 +10,8 @@ C07_export_rejects_unknown_flags C07_126_levels_accepted C07_deeper_level_interl
 C07_overlapping_strides_rejected C07_interleave_by_pu
 C07_attached_numa_present C07_numa_census_filter_independent C07_unfilterable_types C07_filtered_levels_keep_numas
 C07_attached_numa_survive_filters_bounded
-C07_build_wf_clauses C07_build_wf_partial C07_build_wf_reduction C07_build_wf_unproved_clauses C07_export_fixpoint_partial""".split()]
+C07_build_wf_clauses C07_build_wf_partial C07_build_wf_reduction C07_build_wf_unproved_clauses C07_export_fixpoint_partial
+C07_build_wf_rest_clauses C07_build_wf C07_build_wf_rest""".split()]
 CHECK_MODULES = ["Hw.Props.C07"]
 TRUSTED = ["libc strtoul/strtoull/strtol are modelled (Hw.Base.Num.strtoul for unsigned input, Hw.Syn.strtoulS/strtolU32 add glibc's sign, "
            "saturation and (unsigned) truncation); strchr/strspn/strcspn/strncmp/strncasecmp (C locale) are modelled in Hw.Io.Synthetic; "
